@@ -292,6 +292,25 @@ def state_problems(case):
                         if abs(float(val) - want_v[flat, j]) > 1e-10:
                             probs.append(("eval:point:" + tag, "HSplineFunc(%s) of unit vector %d = %r, TP representation gives %r" % (list(reversed(x)), j, val, want_v[flat, j])))
                             break
+        # the explicit truncate argument of the evaluation decides how the coefficients are read, whatever the space's own
+        # flag says; None means the space's flag (the combination own=False / explicit flag is covered above)
+        own0 = hs.truncate
+        try:
+            for own, tr in ((True, False), (True, True), (True, None), (False, None)):
+                hs.truncate = own
+                eff = own if tr is None else tr
+                want_v = (E0 @ R[eff])
+                for j in range(n):
+                    e = np.zeros(n)
+                    e[j] = 1.0
+                    v = np.asarray(hierarchical.HSplineFunc(hs, e, truncate=tr).grid_eval(tuple(grids))).reshape(-1)
+                    if np.abs(v - want_v[:, j]).max() > 1e-10:
+                        probs.append(("eval:grid:flag:space=%s:arg=%s" % (own, tr),
+                                      "HSplineFunc(hs, e_%d, truncate=%s).grid_eval on a space with hs.truncate=%s differs from the TP "
+                                      "representation of the %s function by %.3g" % (j, tr, own, "THB" if eff else "HB", np.abs(v - want_v[:, j]).max())))
+                        break
+        finally:
+            hs.truncate = own0
         # boundary restriction (dim >= 2)
         if M.dim >= 2:
             for ax in range(M.dim):
